@@ -9,6 +9,127 @@ package db19
 // (at most one row for `key()`), no two share a non-empty unique value, every index lists the
 // same rows, Nrows agrees.
 
-import "testing"
+import (
+	"fmt"
+	"strings"
+	"testing"
+
+	"github.com/apmckinlay/gsuneido/core"
+	"github.com/apmckinlay/gsuneido/db19/index/ixkey"
+	"github.com/apmckinlay/gsuneido/db19/meta/schema"
+	"github.com/apmckinlay/gsuneido/db19/stor"
+	lib "github.com/apmckinlay/gsuneido/util/zzverif"
+)
 
 func TestVerifC07Keys(t *testing.T) { c01sRun(t, c01sCfg{name: "keys", collide: true}) }
+
+// ---------------------------------------------------------------------------------------------
+// suite "dup": the point reads Output/Update register for their duplicate checks, and
+// needsDupCheck itself, replayed by the Lean mirror Gsu.Model.Dup (driver drv_c07).
+
+func TestVerifC07Dup(t *testing.T) {
+	MakeSuTran = func(ut *UpdateTran) *core.SuTran { return core.NewSuTran(nil, true) }
+	tr := lib.Open()
+	defer tr.Close()
+	r := lib.Rand()
+	n := lib.N(1500)
+	// needsDupCheck on all 16 combinations
+	for m := 0; m < 16; m++ {
+		p, u, c, e := m&1 != 0, m&2 != 0, m&4 != 0, m&8 != 0
+		ix := schema.Index{Mode: 'i', Primary: p, ContainsKey: c, Ixspec: ixkey.Spec{Fields: []int{0}}}
+		if u {
+			ix.Mode = 'u'
+		}
+		v := "x"
+		if e {
+			v = ""
+		}
+		res := needsDupCheck(ix, c01sRec(c01sRow{v, "y"}))
+		tr.Q(fmt.Sprintf("needsdup %s %s %s %s", lib.B(p), lib.B(u), lib.B(c), lib.B(e)), lib.B(res))
+	}
+	val := func() string { return c01sVals[r.Intn(3)] }
+	for h := 0; h < n; h++ {
+		kind := r.Intn(4)
+		db := CreateDb(stor.HeapStor(64 * 1024))
+		db.CheckerSync()
+		ck := db.ck.(*Check)
+		db.Create(c01sMakeSchema(kind))
+		// 0-2 committed rows
+		for i, nr := 0, r.Intn(3); i < nr; i++ {
+			ut := db.NewUpdateTran()
+			if lib.Catch(func() { ut.Output(nil, "t", c01sRec(c01sRow{val(), val()})) }) != "" {
+				ut.Abort()
+				continue
+			}
+			db.CommitMerge(ut)
+		}
+		existing := c01sScanAll(db.NewReadTran(), 1)
+		upd := r.Intn(2) == 0 && len(existing) > 0
+		ut := db.NewUpdateTran()
+		ts := ut.getSchema("t")
+		ti := ut.GetInfo("t")
+		newrow := c01sRow{val(), val()}
+		newrec := c01sRec(newrow)
+		var oldrec core.Record
+		var oldoff uint64
+		if upd {
+			old := existing[r.Intn(len(existing))]
+			oldrec = c01sRec(old)
+			dr := db.NewReadTran().Lookup("t", 0, ts.Indexes[0].Ixspec.Key(oldrec))
+			if dr == nil {
+				ut.Abort()
+				continue
+			}
+			oldoff = dr.Off
+			if r.Intn(3) == 0 {
+				newrow.k = old.k
+				newrec = c01sRec(newrow)
+			}
+		}
+		var sb strings.Builder
+		fmt.Fprintf(&sb, "dup %s", lib.B(upd))
+		for i, ix := range ts.Indexes {
+			key := ix.Ixspec.Key(newrec)
+			empty := ix.Mode == 'k' && len(ix.Columns) == 0
+			present := ti.Indexes[i].Lookup(key) != 0
+			if empty && !upd {
+				present = ti.Nrows > 0
+			}
+			changed := true
+			if upd {
+				changed = ix.Ixspec.Key(oldrec) != key
+			}
+			fmt.Fprintf(&sb, " %s%s%s%s%s%s%s:%s", lib.B(empty), lib.B(ix.Primary), lib.B(ix.Mode == 'u'),
+				lib.B(ix.ContainsKey), lib.B(uniqueIndexEmpty(newrec, ix.Ixspec)), lib.B(changed), lib.B(present), lib.X(key))
+		}
+		res := "ok"
+		msg := lib.Catch(func() {
+			if upd {
+				ut.Update(nil, "t", oldoff, newrec)
+			} else {
+				ut.Output(nil, "t", newrec)
+			}
+		})
+		if strings.Contains(msg, "duplicate key") {
+			res = "dup"
+		} else if msg != "" {
+			res = "!panic"
+		}
+		if acts := ck.bytable["t"][ut.ct.start]; acts != nil {
+			for i, rs := range acts.reads {
+				if rs == nil {
+					continue
+				}
+				for _, rg := range strings.Split(rs.String(), " ") {
+					ft := strings.SplitN(rg, "->", 2)
+					if len(ft) == 2 {
+						res += fmt.Sprintf(" %d:%s-%s", i, lib.X(ft[0]), lib.X(ft[1]))
+					}
+				}
+			}
+		}
+		tr.Q(sb.String(), res)
+		tr.Count(fmt.Sprintf("dup.%s.upd=%v.%s", c01sKinds[kind], upd, strings.SplitN(res, " ", 2)[0]))
+		ut.Abort()
+	}
+}
